@@ -269,6 +269,12 @@ func ParsePKCS8EcryptedPrivateKey(der, pwd []byte) (*sm2.PrivateKey, error) {
 	if err != nil {
 		return nil, err
 	}
+	if len(iv) != block.BlockSize() {
+		return nil, errors.New("x509: invalid IV length in PBES2 parameters")
+	}
+	if len(encryptedKey) == 0 || len(encryptedKey)%block.BlockSize() != 0 {
+		return nil, errors.New("x509: encrypted private key is not a multiple of the block size")
+	}
 	mode := cipher.NewCBCDecrypter(block, iv)
 	mode.CryptBlocks(encryptedKey, encryptedKey)
 	rKey, err := ParsePKCS8UnecryptedPrivateKey(encryptedKey)
